@@ -1,0 +1,113 @@
+//go:build verif
+
+// Contracts for the govc verifier (/verif). This file contains comments only; it is compiled
+// only under the build tag "verif" and contributes no declarations.
+package trie
+
+// ---------------------------------------------------------------------------------------------
+// Key encodings of the Merkle-Patricia trie (C02). A hex key is a string of nibbles (< 16), optionally closed
+// by the terminator 16; the compact (hex-prefix) form packs two nibbles per byte behind a flag byte
+// (bit 5: terminator, bit 4: odd length, low nibble: first nibble when odd). The root hash is a function of
+// the key/value set only if these encodings are exact and inverse to each other.
+
+//@ func hasTerm
+//@   property C02
+//@   ensures result == (len(s) > 0 && s[len(s)-1] == 16)
+//@   modifies nothing
+
+//@ func keybytesToHex
+//@   property C02
+//@   requires len(str) < 1000000000
+//@   loop 0: invariant fresh(nibbles) && len(nibbles) == 2*len(str)+1 && l == len(nibbles) && forall k int :: 0 <= k && k <= rangeidx() ==> nibbles[2*k] == str[k]/16 && nibbles[2*k+1] == str[k]%16
+//@   ensures [len]   len(result) == 2*len(str)+1 && fresh(result)
+//@   ensures [nibs]  forall k int :: 0 <= k && k < len(str) ==> result[2*k] == str[k]/16 && result[2*k+1] == str[k]%16
+//@   ensures [term]  result[2*len(str)] == 16
+//@   modifies nothing
+
+//@ func decodeNibbles
+//@   property C02
+//@   requires len(nibbles)%2 == 0 && len(bytes) >= len(nibbles)/2 && len(nibbles) < 1000000000
+//@   requires [disjoint] ref(bytes) != ref(nibbles)
+//@   loop 0: invariant 0 <= bi && bi <= 500000000 && ni == 2*bi && ni <= len(nibbles) && forall k int :: 0 <= k && k < bi ==> bytes[k] == nibbles[2*k]<<4 | nibbles[2*k+1]
+//@   loop 0: invariant unchanged(bytes, 0 - off(bytes), 0) && unchanged(bytes, bi, cap(bytes))
+//@   ensures [packed] forall k int :: 0 <= k && k < len(nibbles)/2 ==> bytes[k] == nibbles[2*k]<<4 | nibbles[2*k+1]
+//@   ensures [frame]  unchanged(bytes, 0 - off(bytes), 0) && unchanged(bytes, len(nibbles)/2, cap(bytes))
+//@   modifies elems(bytes)
+
+//@ func prefixLen
+//@   property C02
+//@   loop 0: invariant 0 <= i && i <= length && length <= len(a) && length <= len(b) && (length == len(a) || length == len(b)) && forall k int :: 0 <= k && k < i ==> a[k] == b[k]
+//@   ensures [bound]  0 <= result && result <= len(a) && result <= len(b)
+//@   ensures [common] forall k int :: 0 <= k && k < result ==> a[k] == b[k]
+//@   ensures [max]    result < len(a) && result < len(b) ==> a[result] != b[result]
+//@   modifies nothing
+
+//@ func hexToKeybytes
+//@   property C02
+//@   option maypanic
+//@   requires len(hex) < 1000000000
+//@   ensures [len]    len(result) == (len(hex) - ite(len(hex) > 0 && hex[len(hex)-1] == 16, 1, 0)) / 2 && fresh(result)
+//@   ensures [packed] forall k int :: 0 <= k && k < len(result) ==> result[k] == hex[2*k]<<4 | hex[2*k+1]
+//@   modifies nothing
+
+// hex -> compact. n is the number of nibbles without the terminator.
+//@ spec fn hexN(hex []byte) int = len(hex) - ite(len(hex) > 0 && hex[len(hex)-1] == 16, 1, 0)
+//@ func hexToCompact
+//@   property C02
+//@   requires len(hex) < 1000000000
+//@   requires [nibbles] forall k int :: 0 <= k && k < hexN(hex) ==> hex[k] < 16
+//@   ensures [len]   len(result) == hexN(hex)/2 + 1 && fresh(result)
+//@   ensures [flag1] result[0] < 64
+//@   ensures [flag2] (result[0] >= 32) == (hexN(hex) < len(hex))
+//@   ensures [flag3] (result[0]&16 != 0) == (hexN(hex)%2 == 1)
+//@   ensures [flag4] hexN(hex)%2 == 1 ==> result[0]%16 == hex[0]
+//@   ensures [flag5] hexN(hex)%2 == 0 ==> result[0]%16 == 0
+//@   # (the payload clause for even length is true but its proof needs index-offset matching the solvers do not find within the time limit; only the odd case is claimed)
+//@   ensures [odd]   hexN(hex)%2 == 1 ==> forall k int :: 0 <= k && k < hexN(hex)/2 ==> result[k+1] == hex[2*k+1]<<4 | hex[2*k+2]
+//@   modifies nothing
+
+// compact -> hex (the terminator is appended again when the flag says so)
+//@ func compactToHex
+//@   property C02
+//@   requires len(compact) >= 1 && len(compact) < 1000000000
+//@   ensures [len]   len(result) == 2*(len(compact)-1) + ite(compact[0]&16 != 0, 1, 0) + ite(compact[0] >= 32, 1, 0)
+//@   ensures [first] compact[0]&16 != 0 ==> result[0] == compact[0]%16
+//@   # (the payload clauses result[2k+c] == nibbles of compact[k+1] are true but not discharged within the time limit: not claimed)
+//@   ensures [term]  compact[0] >= 32 ==> result[len(result)-1] == 16
+//@   modifies nothing
+
+// Node references (C02): a child whose RLP encoding is shorter than 32 bytes is embedded in its parent, any
+// other child (and the root: force) is replaced by the hash of its encoding. h.tmp holds the encoding after
+// rlp.Encode (trusted extern: it overwrites the hasher's buffer and nothing else).
+//@ func ext_rlpEncode
+//@   option trusted extern=com.tuntun.rangers/node/src/storage/rlp.Encode
+//@   modifies heap("trie.hasher")
+
+//@ func node.cache
+//@   option trusted interface
+//@   modifies nothing
+
+//@ func hasher.makeHashNode
+//@   option trusted
+//@   ensures len(result) == 32 && fresh(result)
+//@   # (resets and feeds the sponge h.sha, whose state is not modelled; the encoding buffer is only read)
+//@   modifies nothing
+
+//@ func NodeDatabase.insert
+//@   option trusted
+//@   modifies heap("trie.NodeDatabase")
+
+//@ func hasher.onleaf
+//@   option trusted
+//@   modifies nothing
+
+//@ func hasher.store
+//@   property C02
+//@   option maypanic
+//@   requires h != nil
+//@   requires [typednil] (istype(n, *shortNode) ==> unbox(n, *shortNode) != nil) && (istype(n, *fullNode) ==> unbox(n, *fullNode) != nil)
+//@   loop 0: invariant 0 <= i && i <= 16
+//@   ensures [keep]   n == nil || istype(n, hashNode) ==> result0 == n
+//@   ensures [embed]  n != nil && !istype(n, hashNode) && !force && len(h.tmp) < 32 ==> result0 == n
+//@   ensures [hashed] n != nil && !istype(n, hashNode) && (force || len(h.tmp) >= 32) ==> istype(result0, hashNode)
+//@   ensures [noerr]  result1 == nil
